@@ -12,6 +12,9 @@ pub fn rej_case<const H: usize>(applied: [bool; H]) {
     let pool = Pool::any();
     let mut k = 0;
     while k < 2 * H { kani::assume(pool.b[k] != b'\n'); k += 1; }
+    // removed and added line of a hunk differ (else the writer would emit one context line): fixes the layout
+    k = 0;
+    while k < H { kani::assume(pool.b[2 * k] != pool.b[2 * k + 1]); k += 1; }
     let mut hunks: Vec<TextHunk> = Vec::with_capacity(H);
     let mut lines = [0isize; H];
     let mut h = 0;
